@@ -135,11 +135,11 @@ def statically_huge_flat(t):
     return False
 
 
-def decide(run, texts, leg, shards, timeout_ms=4000, min_per_shard=300):
+def decide(run, texts, leg, shards, timeout_ms=4000, min_per_shard=300, eval_shards=None):
     import time
     t0 = time.time()
     jobs = [{"qs": t} for t in texts]
-    res = evalkit.run_eval(jobs, ctx="empty", timeout_ms=timeout_ms, shards=shards, tag="c01" + leg)
+    res = evalkit.run_eval(jobs, ctx="empty", timeout_ms=timeout_ms, shards=eval_shards or shards, tag="c01" + leg)
     t1 = time.time()
     events = [evalkit.slim_event(r) for r in res]
     verdicts, st = evalkit.judge(events, "Trace_Eval", shards=shards, tag="c01j" + leg, min_per_shard=min_per_shard)
@@ -219,6 +219,17 @@ def run(tier, seed):
     t3 = [t for t in t3 if t[0] in "019."]
     s3, a3 = decide(run, t3, "lit", shards)
     run.sample({"leg": "lit", "q": t3[len(t3) // 2]})
+
+    # exponent literals of equal magnitude and opposite sign, one after the other in ONE worker (the value of a literal must not
+    # depend on which literals were read before), around every power-of-two exponent size up to the specification's ExpLimit
+    tx = []
+    for k in [1, 8, 31, 32, 63, 64, 65, 100, 128, 129, 257, 308]:
+        for m in ["1", "25", "1.5", "0x1"]:
+            if m == "0x1":
+                continue
+            tx += ["%se%d" % (m, k), "%se-%d" % (m, k), "%se-%d * %se%d" % (m, k, m, k), "%sE+%d" % (m, k), "%se-%d" % (m, k), "%se%d / %se-%d" % (m, k, m, k)]
+    s5, a5 = decide(run, tx, "exponents", shards, min_per_shard=20, eval_shards=1)
+    run.sample({"leg": "exponents", "q": tx[20]})
 
     # V: seeded random trees with big operands (sizes follow the measured cost of the TLA+ bignum)
     n_big = 3000 if thorough else 600
